@@ -85,6 +85,11 @@ def run(ctx):
                     rep.ok("C18.R2", C, f"{level}-level Signorini update uses {want}")
                 else:
                     rep.bad("C18.R2", C, c, f"{level}-level scheme must project with {want}; found `{s[:80]}` (families {sorted(fam)})", f"{rel}:{c.lineno}")
+        nloc, badloc = proxrule.check_locality(fn, tags)
+        for node, msg in badloc:
+            rep.bad("C18.R1", C, proxrule._stmt_of(node), msg, f"{rel}:{node.lineno}")
+        if not badloc and nloc:
+            rep.ok("C18.R1", C, f"per-contact locality: {nloc} uses of contact arrays indexed with the contact's own i_N / i_F")
         if nN < 1 or nF < 1:
             rep.bad("C18.R1", C, fn.name, f"site has {nN} normal and {nF} friction projections (both are required)", f"{rel}:{fn.lineno}")
         # R3
